@@ -19,10 +19,10 @@ From GV Require Import Gen.GenArbiter.
 Import ListNotations.
 Local Open Scope Z_scope.
 
-Inductive action := Nothing | Abort | Kill.
+Inductive action := Nothing | SigAbrt | SigKill.
 
 Definition murder_decision (now hb tmo : Z) (aborted : bool) : action :=
-  if now - hb <=? tmo then Nothing else if aborted then Kill else Abort.
+  if now - hb <=? tmo then Nothing else if aborted then SigKill else SigAbrt.
 
 (* ---- worker classes ---------------------------------------------------------------------------------- *)
 Inductive wclass := Sync | GThread | Gevent | Eventlet.
